@@ -42,6 +42,10 @@ def run(ctx):
     from . import C15
     ctx.do(C15.rule_truncate, rule_id="C01.timestamp-pipeline")
     ctx.do(C15.rule_property_forward, rule_id="C01.timestamp-pipeline")
+    from . import C02
+    ctx.do(C02.rule_init_loops, rule_id="C01.constructor-loops-complete")
+    from . import C15 as _C15
+    ctx.do(_C15.rule_branch_table, rule_id="C01.timestamp-pipeline")
     from .hidden_state import rule_no_hidden_state
     ctx.do(rule_no_hidden_state, "C01.history-independence")
 
